@@ -9,7 +9,8 @@ CONSTANTS N,          \* number of leaves
           P,          \* number of primary inputs (2-bit wires 1..P)
           Shapes,     \* subset of {"And2","Or2","Not","Buf","BitsLSBF","Constant"}
           InputVals,  \* values poked on every primary input before construction
-          Emit        \* TRUE: print every terminal state
+          Emit,       \* TRUE: print terminal states
+          EmitMod     \* print a random 1/EmitMod sample of them (1 = all)
 
 NIn(sh)  == CASE sh \in {"And2", "Or2"} -> 2 [] sh \in {"Not", "Buf", "BitsLSBF"} -> 1 [] sh = "Constant" -> 0
 NOut(sh) == IF sh = "BitsLSBF" THEN 2 ELSE 1
@@ -30,20 +31,25 @@ MkNet(shs, ins) ==
                     p |-> IF shs[b] = "Constant" THEN <<2>> ELSE <<>>, dom |-> 0]],
      doms   |-> <<>>]
 
-Init ==
-    \E shs \in [1..N -> Shapes] :
-    \E ins \in [1..N -> UNION {[1..k -> 1..NWires(shs)] : k \in 0..2}] :
-    \E iv \in InputVals :
-        /\ \A b \in 1..N : Len(ins[b]) = NIn(shs[b])
+\* the input tuples of leaf b: exactly NIn wires each (enumerated leaf by leaf: the set of all functions
+\* [1..N -> tuples of any length] is too large for TLC to build when N = 4)
+InsOf(shs, b) == IF b <= N THEN [1..NIn(shs[b]) -> 1..NWires(shs)] ELSE {<<>>}
+InitWith(shs, ins, iv) ==
         \* BitsLSBF needs a 2-bit input to have two outputs
         /\ \A b \in 1..N : shs[b] = "BitsLSBF" => MkNet(shs, ins).width[ins[b][1]] = 2
         /\ KInit(MkNet(shs, ins), [w \in 1..NWires(shs) |-> IF w <= P THEN iv ELSE 0])
+Init ==
+    \E shs \in [1..N -> Shapes] :
+    \E i1 \in InsOf(shs, 1), i2 \in InsOf(shs, 2), i3 \in InsOf(shs, 3), i4 \in InsOf(shs, 4), i5 \in InsOf(shs, 5) :
+    \E iv \in InputVals :
+        InitWith(shs, [b \in 1..N |-> <<i1, i2, i3, i4, i5>>[b]], iv)
 
 Terminal == pc \in {"idle", "raised"}
 
 Report ==
     /\ Terminal
     /\ Emit
+    /\ (EmitMod = 1 \/ RandomElement(1..EmitMod) = 1)
     /\ PrintT(ToJson(<<"T", [k \in 1..N |-> L(k).kind], [k \in 1..N |-> L(k).ins], val[1],
                 pc, order, passes, Cyclic,
                 IF pc = "idle" THEN val ELSE <<>>>>))
